@@ -838,6 +838,8 @@ class Builder:
             if rule[0] == "R12b":
                 # item.try_into() on a store item -> trusted wrapper (PasskeyItem: TryInto<Passkey>)
                 for mm in re.finditer(r"\.\s*try_into\s*\(", m[a:b]):
+                    if re.match(r"\s*\)\s*\.\s*unwrap\s*\(", m[a + mm.end():b]):
+                        continue  # `.try_into().unwrap()` is a slice -> array conversion (rule R4d), not a store item
                     edits.append(Edit(a + mm.start(), a + mm.end(), [Seg(".vx_try_into_passkey(", "repo", fn=qual)]))
                     self.count("R12b")
             if rule[0] == "R17":
